@@ -41,6 +41,31 @@ def stream_ops(F, E, fn, depth=0):
         memo[g.id] = r
         return r
     paths = []
+    decls = E.decls(fn)
+
+    def canon(e):
+        """condition with named temporaries expanded, in one canonical spelling -> (text, polarity)"""
+        x = ir.expand(e, decls)
+        als = ir.decision_aliases(x, 'T')
+        # canonical = lexicographically smallest alias text
+        t, lab = sorted(als)[0]
+        return t, lab == 'T'
+
+    def resolve(e, acc):
+        """value written, with named temporaries expanded and a ?: resolved by the decision this path took on its condition"""
+        x = ir.strip(ir.expand(e, decls))
+        for _ in range(3):
+            if x['k'] != 'cond':
+                break
+            key, pol = canon(x['c'])
+            took = None
+            for item in acc:
+                if item[0] == '?' and len(item) > 3 and item[3] == key:
+                    took = item[4]
+            if took is None:
+                break
+            x = ir.strip(x['t'] if (took == pol) else x['f'])
+        return ir.pp(x)
 
     def walk(n, acc, visited):
         if n.id in visited:
@@ -53,7 +78,7 @@ def stream_ops(F, E, fn, depth=0):
             g = F.fn(n.e['fn']) if n.e.get('fn') is not None else None
             if g is not None and g.tkey in ('ffsm2::detail::BitWriteStreamT', 'ffsm2::detail::BitReadStreamT') and g.m in ('write', 'read'):
                 width = (g.d.get('ftints') or [None])[0]
-                val = ir.pp(ir.strip(n.e['args'][0])) if n.e.get('args') else ''
+                val = resolve(n.e['args'][0], acc) if n.e.get('args') else ''
                 acc2 = acc + [('w' if g.m == 'write' else 'r', width, val)]
             elif g is not None and has_ops(g):
                 subs = stream_ops(F, E, g, depth + 1)
@@ -62,13 +87,32 @@ def stream_ops(F, E, fn, depth=0):
                         walk(s2, acc + sp, visited | {n.id})
                 return
         if n.kind == 'branch':
+            key, pol = canon(n.e) if n.e is not None else ('', True)
             for s2, lab in n.succ:
-                walk(s2, acc2 + [('?', ir.pp(ir.strip(n.e))[:60] if n.e else '', lab)], visited | {n.id})
+                if lab in ('T', 'F') and n.e is not None:
+                    truth = (lab == 'T') == pol           # truth value of the canonical condition on this edge
+                    prior = [it for it in acc2 if it[0] == '?' and len(it) > 3 and it[3] == key]
+                    if prior and prior[-1][4] != truth and pure_cond(n.e):
+                        continue      # infeasible: the same side-effect-free condition was decided the other way earlier on this path
+                    walk(s2, acc2 + [('?', ir.pp(ir.strip(ir.expand(n.e, decls)))[:60], lab, key, truth)], visited | {n.id})
+                else:
+                    walk(s2, acc2 + [('?', ir.pp(ir.strip(n.e))[:60] if n.e else '', lab)], visited | {n.id})
             return
         for s2, lab in n.succ:
             walk(s2, acc2, visited | {n.id})
     walk(c.entry, [], frozenset())
     return paths
+
+
+def pure_cond(e):
+    """a condition whose value cannot change between two evaluations on one path of these functions: locals, constants, members read
+    through const accessors (isActive()) -- no stream reads"""
+    for x in ir.walk(e):
+        if x['k'] == 'call' and x.get('m') in ('read', 'write'):
+            return False
+        if x['k'] in ('asg',) or (x['k'] == 'un' and x.get('op') in ('++', '--')):
+            return False
+    return True
 
 
 def ops_only(path):
@@ -141,16 +185,18 @@ def field_tables(run, F, E):
                vals_ok, where=fn.pat, detail=detail[:3] or None, key='save() writes something other than the activity bit and the active index')
         # the inactive marker is written exactly when the machine is inactive (manual)
         if manual:
-            c = cfgmod.cfg_of(fn)
-            br = [b for b in c.events(('branch',)) if b.e is not None and 'isActive' in ir.pp(b.e)]
-            okb = len(br) == 1
-            if okb:
-                t = [s for s, lab in br[0].succ if lab == 'T'][0]
-                f = [s for s, lab in br[0].succ if lab == 'F'][0]
-                w1 = [n for n in c.events(('call',)) if n.e.get('m') == 'write']
-                on_t = [ir.const_val(n.e['args'][0]) for n in w1 if c.dominates(t, n)]
-                on_f = [ir.const_val(n.e['args'][0]) for n in w1 if c.dominates(f, n)]
-                okb = on_t == [1] and on_f == [0]
+            # on every feasible path: the first bit written is 1 exactly when the path decided isActive() to be true
+            okb = bool(wpaths)
+            for p in wpaths:
+                dec = [it for it in p if it[0] == '?' and len(it) > 3 and 'isActive()' in it[3]]
+                ops = [x for x in p if x[0] == 'w']
+                if not dec or not ops:
+                    okb = False
+                    continue
+                # it[3] is the canonical text (possibly the negated spelling), it[4] its truth value
+                key0 = dec[0][3].replace('(', '').replace(')', '').replace(' ', '')
+                active = dec[0][4] if not key0.startswith('!') else (not dec[0][4])
+                okb = okb and ops[0][2] == ('1' if active else '0')
             run.ob('C12.a', 'Manual save writes 1 iff isActive()', okb, where=fn.pat, key='manual save() encodes the activity bit wrongly')
         # every save path passes through a whole-buffer clear before the first write: either the write stream's constructor clears the
         # buffer it is given (today), or save() clears its buffer argument itself
